@@ -3,7 +3,7 @@ CONSTANTS
   DEV_NoDecimalsAdjust = FALSE
   DEV_MutateBeforeDebit = FALSE
   Level = 2
-  Depth = 2
+  Depth = 3
 INIT Init
 NEXT Next
 CONSTRAINT Bound
